@@ -1,9 +1,18 @@
 (* C03 - attribute value codecs are lossless, canonical and never mutate their input.
-   Only statements; each is closed by `exact` of a lemma from Proofs/Codec*.v or Base/JsonRT.v. *)
-From Coq Require Import String List NArith ZArith Bool.
-From FIM Require Import Base.Str Base.Json Gen.CodecGen Model.CodecField Model.CodecMisc Proofs.CodecTables.
+   Only statements; each is closed by `exact` of a lemma from Base/JsonRT.v or Proofs/Codec*.v.
+
+   The model (Model/CodecField.v, Model/CodecMisc.v over Base/Json.v) is parameterised by the REGENERATED
+   class table Gen/CodecGen.v and by the validators (V: label regexes/lambdas, VT: tag pattern, VISO:
+   datetime.fromisoformat), which stay universally quantified: the theorems hold whatever they accept.
+   Encoders and decoders work on the TEXT (jprint/jparse are the models of json.dumps/json.loads).
+   `_partial` = extra hypothesis excluding exactly a recorded finding; `_refuted` = the full statement fails,
+   with a witness that the harness replays on the implementation. *)
+From Coq Require Import String List NArith ZArith Bool Permutation.
+From FIM Require Import Base.Str Base.Json Base.JsonRT Gen.CodecGen Model.CodecField Model.CodecMisc Model.CodecWf
+     Model.CodecChk Proofs.CodecAssoc Proofs.CodecTables Proofs.CodecFieldRT Proofs.CodecMiscRT Proofs.CodecGateway.
 Import ListNotations.
 
+(* ---------------------------------------------------------------- tables *)
 Theorem C03_translated : codec_gen_ok = true.
 Proof. exact codec_gen_ok_true. Qed.
 Print Assumptions C03_translated.
@@ -15,3 +24,239 @@ Theorem C03_enumerations_match_source :
   jsondata_names = ["MeasurementData"; "UserData"; "LayoutData"]%string.
 Proof. exact codec_enums_match. Qed.
 Print Assumptions C03_enumerations_match_source.
+
+Theorem C03_classes_wellformed : forall V c, In c gen_classes -> cls_ok V c = true.
+Proof. exact classes_ok. Qed.
+Print Assumptions C03_classes_wellformed.
+
+(* ---------------------------------------------------------------- JSON text level *)
+(* json.loads (json.dumps (v [, sort_keys])) = v [with sorted keys], for every value without lone surrogates,
+   with float tokens the scanner reads back and pairwise distinct dict keys; unbounded nesting *)
+Theorem C03_json_text_roundtrip : forall b v, jwfb v = true ->
+  jparse (jdumps b v) = Some (if b then jsort v else v).
+Proof. exact jparse_jdumps. Qed.
+Print Assumptions C03_json_text_roundtrip.
+
+Theorem C03_json_sorted_form_wellformed : forall v, jwfb v = true -> jwfb (jsort v) = true.
+Proof. exact jwfb_jsort. Qed.
+Print Assumptions C03_json_sorted_form_wellformed.
+
+(* ---------------------------------------------------------------- the JSONField family *)
+(* lossless: decode (encode x) = x; a value with nothing to encode becomes '' and is read back as absent
+   (Flags, which overrides to_json, is always encoded in full) *)
+Theorem C03_field_roundtrip : forall V c o, In c gen_classes -> wf_obj V c o = true ->
+  from_json V c (Some (to_json c o)) = Ok (if nothing_kept c o && jc_json_blank c then None else Some o).
+Proof. exact (fun V c o H => field_roundtrip V c o (classes_ok V c H)). Qed.
+Print Assumptions C03_field_roundtrip.
+
+(* canonical: re-encoding the decoded value gives the identical text *)
+Theorem C03_field_canonical : forall V c o y, In c gen_classes -> wf_obj V c o = true ->
+  from_json V c (Some (to_json c o)) = Ok (Some y) -> to_json c y = to_json c o.
+Proof. exact (fun V c o y H => field_canonical V c o y (classes_ok V c H)). Qed.
+Print Assumptions C03_field_canonical.
+
+(* wf_obj excludes a value only if the encoder drops it; that exclusion is harmless exactly when every accepted
+   value the encoder drops IS the default -- true of every regenerated class but Capacities (next three).
+   This is the obligation that a `== 0` drop rule on a float-valued class (Location before eb213ea) breaks. *)
+Theorem C03_drop_rule_lossless : forall c, In c gen_classes -> jc_name c <> n_capacities -> lossless_cls c = true.
+Proof. exact drop_rule_lossless. Qed.
+Print Assumptions C03_drop_rule_lossless.
+
+Theorem C03_capacities_drop_rule_lossless_partial :
+  In cls_Capacities gen_classes /\ jc_name cls_Capacities = n_capacities /\
+  lossless_cls_but [JNull; JBool false] cls_Capacities = true.
+Proof. exact capacities_lossless_partial. Qed.
+Print Assumptions C03_capacities_drop_rule_lossless_partial.
+
+(* FULL: lossless_cls cls_Capacities = true.  Refuted: Capacities(core=None, ram=1) reads back with core = 0
+   (False, also accepted and dropped, reads back as 0, which Python considers equal). *)
+Theorem C03_capacities_none_refuted :
+  exists kw o o', construct VA cls_Capacities kw = Ok o
+    /\ from_json VA cls_Capacities (Some (to_json cls_Capacities o)) = Ok (Some o')
+    /\ json_eqb (JObj o) (JObj o') = false.
+Proof. exact capacities_none_refuted. Qed.
+Print Assumptions C03_capacities_none_refuted.
+
+(* forward compatibility: unknown keys are ignored and no known key is dropped -- provided the unknown values
+   pass the class's per-value assertions (the code asserts before it looks the field up) *)
+Theorem C03_field_forward_compat_partial : forall V c t d, jparse t = Some (JObj d) -> absent_text t = false ->
+  ahas k_forgiving d || ahas k_self d = false ->
+  (forall k v, In (k, v) d -> ahas k (jc_fields c) = false -> check_value c v = None) ->
+  from_json V c (Some t) = some_res (of_dict V c (filter (known c) d)).
+Proof. exact field_forward_compat. Qed.
+Print Assumptions C03_field_forward_compat_partial.
+
+Theorem C03_field_forward_compat_value_partial : forall V c o t d, In c gen_classes -> wf_obj V c o = true ->
+  jparse t = Some (JObj d) -> absent_text t = false -> ahas k_forgiving d || ahas k_self d = false ->
+  (forall k v, In (k, v) d -> ahas k (jc_fields c) = false -> check_value c v = None) ->
+  Permutation (filter (known c) d) (kept (jc_json_drop c) o) ->
+  from_json V c (Some t) = Ok (Some o).
+Proof. exact (fun V c o t d H => field_forward_compat_value V c o t d (classes_ok V c H)). Qed.
+Print Assumptions C03_field_forward_compat_value_partial.
+
+(* FULL: the same without the hypothesis on the unknown values.  Refuted. *)
+Theorem C03_field_forward_compat_refuted :
+  exists t t0 o, from_json VA cls_Capacities (Some t0) = Ok (Some o)
+    /\ from_json VA cls_Capacities (Some t) = Err e_type
+    /\ (exists d0 k v, jparse t0 = Some (JObj d0) /\ jparse t = Some (JObj (d0 ++ [(k, v)]))
+                       /\ ahas k (jc_fields cls_Capacities) = false).
+Proof. exact forward_compat_refuted. Qed.
+Print Assumptions C03_field_forward_compat_refuted.
+
+(* copy-with-changes: same fields in the same order, the named ones replaced, every other one taken from the
+   original; all new values were accepted by the class.  (That the ORIGINAL OBJECT is untouched is an aliasing
+   fact a pure model cannot state; it is checked on every run by before/after snapshots in the field stream.) *)
+Theorem C03_update_spec : forall V c o kw y, NoDup (map fst kw) -> update V c o kw = Ok y ->
+  map fst y = map fst o
+  /\ (forall k, aget k y = match aget k kw with Some v => Some v | None => aget k o end)
+  /\ (forall k v, In (k, v) kw -> ahas k o = true /\ elem_ok V c k v = true).
+Proof. exact update_spec. Qed.
+Print Assumptions C03_update_spec.
+
+Theorem C03_update_without_changes_is_copy : forall V c o, update V c o [] = Ok o.
+Proof. exact update_nil. Qed.
+Print Assumptions C03_update_without_changes_is_copy.
+
+(* ---------------------------------------------------------------- Tags, JSONData, Gateway *)
+Theorem C03_tags_roundtrip : forall VT t, tags_wf VT t = true -> tags_from_json VT (Some (tags_to_json t)) = Ok (Some t).
+Proof. exact tags_roundtrip. Qed.
+Print Assumptions C03_tags_roundtrip.
+
+Theorem C03_tags_canonical : forall VT t u, tags_wf VT t = true ->
+  tags_from_json VT (Some (tags_to_json t)) = Ok (Some u) -> tags_to_json u = tags_to_json t.
+Proof. exact tags_canonical. Qed.
+Print Assumptions C03_tags_canonical.
+
+Theorem C03_tags_constructed_are_valid : forall VT args t, tags_make VT args = Ok t -> forallb VT t = true.
+Proof. exact tags_make_valid. Qed.
+Print Assumptions C03_tags_constructed_are_valid.
+
+(* the stored text is kept verbatim: re-reading it gives the identical text and the same value *)
+Theorem C03_jsondata_roundtrip : forall mx exn i t, (2 <= mx)%N -> jd_input_wf i = true -> jd_make mx exn i = Ok t ->
+  jd_make mx exn (JDText (jd_json t)) = Ok t /\ jd_data t = jd_value i /\ jd_data t <> None.
+Proof. exact jd_roundtrip. Qed.
+Print Assumptions C03_jsondata_roundtrip.
+
+Theorem C03_jsondata_limits : forallb (fun x => (2 <=? snd (fst x))%N) jsondata_classes = true.
+Proof. exact jsondata_limits_ok. Qed.
+Print Assumptions C03_jsondata_limits.
+
+Theorem C03_gateway_constructor_idempotent : forall V l g, gw_make V (Some l) = Ok (Some g) -> gw_make V (Some g) = Ok (Some g).
+Proof. exact gw_make_idempotent. Qed.
+Print Assumptions C03_gateway_constructor_idempotent.
+
+Theorem C03_gateway_roundtrip : forall V g, wf_obj V cls_Labels g = true -> nothing_kept cls_Labels g = false ->
+  gw_make V (Some g) = Ok (Some g) -> gw_from_json V (gw_to_json (Some g)) = Ok (Some g).
+Proof. exact (fun V g => gw_roundtrip V g (classes_ok_labels V)). Qed.
+Print Assumptions C03_gateway_roundtrip.
+
+(* ---------------------------------------------------------------- PathInfo / ERO *)
+(* pinfo_wf: what the constructor and set() build AFTER set() was called *)
+Theorem C03_pathinfo_roundtrip_partial : forall ero p, pinfo_wf ero p = true ->
+  exists s, pi_to_json p = Ok s /\ pi_from_json ero (Some s) = Ok (Some p).
+Proof. exact pi_roundtrip. Qed.
+Print Assumptions C03_pathinfo_roundtrip_partial.
+
+Theorem C03_pathinfo_canonical : forall ero p q s, pinfo_wf ero p = true -> pi_to_json p = Ok s ->
+  pi_from_json ero (Some s) = Ok (Some q) -> pi_to_json q = Ok s.
+Proof. exact pi_canonical. Qed.
+Print Assumptions C03_pathinfo_canonical.
+
+Theorem C03_pathinfo_forward_compat : forall ero d d',
+  (forall k, In k [k_type; k_payload; k_strict] -> aget k d' = aget k d) ->
+  pi_of_jv ero (JObj d') = pi_of_jv ero (JObj d).
+Proof. exact pi_forward_compat. Qed.
+Print Assumptions C03_pathinfo_forward_compat.
+
+(* FULL: every PathInfo / ERO built through the constructor can be encoded ('' when nothing is set). Refuted. *)
+Theorem C03_pathinfo_unset_refuted : exists p, pinfo_unset p = true /\ pi_strict p = None /\ pi_to_json p = Err e_attr.
+Proof. exact pi_unset_refuted. Qed.
+Print Assumptions C03_pathinfo_unset_refuted.
+
+Theorem C03_ero_unset_refuted : exists p, pinfo_unset p = true /\ pi_strict p = Some false /\ pi_to_json p = Err e_attr.
+Proof. exact ero_unset_refuted. Qed.
+Print Assumptions C03_ero_unset_refuted.
+
+(* ---------------------------------------------------------------- MaintenanceInfo *)
+(* "a finalized maintenance record cannot be altered": induction over all operation sequences *)
+Theorem C03_maint_finalized_immutable : forall ops m, mi_lock m = true ->
+  fst (mrun m ops) = m /\ Forall2 (fun o r => mutating o = true -> r = RErr e_maint) ops (snd (mrun m ops)).
+Proof. exact maint_finalized_immutable. Qed.
+Print Assumptions C03_maint_finalized_immutable.
+
+Theorem C03_maint_roundtrip : forall VISO m, minfo_wf VISO m = true -> mi_lock m = true ->
+  exists s, mi_to_json m = Ok s /\ mi_from_json VISO (Some s) = Ok (Some m).
+Proof. exact maint_roundtrip. Qed.
+Print Assumptions C03_maint_roundtrip.
+
+Theorem C03_maint_decoded_is_finalized : forall VISO t m, mi_from_json VISO t = Ok (Some m) -> mi_lock m = true.
+Proof. exact maint_decoded_is_finalized. Qed.
+Print Assumptions C03_maint_decoded_is_finalized.
+
+Theorem C03_maint_forward_compat_extra_node : forall VISO d n v l e, mentries_of VISO d = Ok l ->
+  mentry_of_jv VISO v = Ok e -> mentries_of VISO (d ++ [(n, v)]) = Ok (l ++ [(n, e)]).
+Proof. exact maint_extra_node. Qed.
+Print Assumptions C03_maint_forward_compat_extra_node.
+
+(* FULL: unknown keys anywhere in the text are tolerated.  Refuted inside an entry. *)
+Theorem C03_maint_unknown_entry_field_refuted :
+  exists v extra, mentry_of_jv (fun _ => true) v = Ok {| me_state := Some MMaint; me_deadline := None; me_end := None |}
+    /\ mentry_of_jv (fun _ => true) (match v with JObj d => JObj (d ++ [extra]) | _ => v end) = Err e_type.
+Proof. exact maint_unknown_entry_field_refuted. Qed.
+Print Assumptions C03_maint_unknown_entry_field_refuted.
+
+(* ---------------------------------------------------------------- legacy typed tuples *)
+Theorem C03_tuple_vocabulary_ok : tuple_vocab_ok = true.
+Proof. exact tuple_vocab_ok_true. Qed.
+Print Assumptions C03_tuple_vocabulary_ok.
+
+Theorem C03_tuple_roundtrip_partial : forall cat t, tuple_vocab_ok = true -> ttuple_wf cat t = true ->
+  tval_plain (tt_val t) = true -> tt_fromstring cat (tt_string t) = Ok t.
+Proof. exact tt_roundtrip_partial. Qed.
+Print Assumptions C03_tuple_roundtrip_partial.
+
+(* FULL: the same for every value.  Refuted for int values (read back as str; text stays canonical) and for
+   values with trailing whitespace (strip()). *)
+Theorem C03_tuple_int_value_refuted : exists cat t u, ttuple_wf cat t = true /\ tt_fromstring cat (tt_string t) = Ok u
+  /\ u <> t /\ tt_string u = tt_string t.
+Proof. exact tt_int_value_refuted. Qed.
+Print Assumptions C03_tuple_int_value_refuted.
+
+Theorem C03_tuple_trailing_space_refuted : exists cat t u, ttuple_wf cat t = true /\ tt_fromstring cat (tt_string t) = Ok u /\ u <> t.
+Proof. exact tt_trailing_space_refuted. Qed.
+Print Assumptions C03_tuple_trailing_space_refuted.
+
+(* ---------------------------------------------------------------- non-vacuity *)
+Example C03_nonvacuous_json :
+  let v := JObj [(S"b", JArr [JInt (-5); JFloat (S"0.0"); JNull; JObj [(S"z", JBool true); (S"a", JStr [233; 128512; 34; 10])]]);
+                 (S"a", JFloat (S"1e+22"))] in
+  jwfb v = true /\ jparse (jdumps true v) = Some (jsort v) /\ jsort v <> v.
+Proof. vm_compute. repeat split; discriminate. Qed.
+
+Example C03_nonvacuous_location :     (* lat = 0.0 is kept and read back *)
+  let o := [(S"postal", JNull); (S"lat", JFloat (S"0.0")); (S"lon", JFloat (S"-78.6382"))] in
+  In cls_Location gen_classes /\ wf_obj VA cls_Location o = true /\ nothing_kept cls_Location o = false /\
+  to_json cls_Location o = S"{""lat"": 0.0, ""lon"": -78.6382}" /\
+  from_json VA cls_Location (Some (to_json cls_Location o)) = Ok (Some o).
+Proof. vm_compute. repeat split; auto 10. Qed.
+
+Example C03_nonvacuous_labels_and_flags :
+  let l := aset (S"vlan") (JArr [JStr (S"100"); JStr (S"200")]) (aset (S"local_name") (JStr []) (jc_fields cls_Labels)) in
+  let f := jc_fields cls_Flags in
+  wf_obj VA cls_Labels l = true /\ to_json cls_Labels l = S"{""local_name"": """", ""vlan"": [""100"", ""200""]}" /\
+  wf_obj VA cls_Flags f = true /\ nothing_kept cls_Flags f = false /\
+  wf_obj VA cls_Capacities (jc_fields cls_Capacities) = true /\ to_json cls_Capacities (jc_fields cls_Capacities) = [] /\
+  from_json VA cls_Capacities (Some []) = Ok None.
+Proof. vm_compute. repeat split. Qed.
+
+Example C03_nonvacuous_others :
+  tags_wf VTA [S"a"; S"tag-1"] = true /\
+  pinfo_wf true {| pi_type := Some PTPath; pi_payload := PLPath (JArr [JStr (S"n1"); JStr (S"n2")]) JNull; pi_strict := Some true |} = true /\
+  pinfo_wf false {| pi_type := Some PTGraph; pi_payload := PLRaw (JStr (S"g1")); pi_strict := None |} = true /\
+  (let m := {| mi_nodes := [(S"n1", {| me_state := Some MMaint; me_deadline := Some (S"2024-01-02T03:04:05+00:00"); me_end := None |})];
+               mi_lock := true |} in
+   minfo_wf VISOA m = true /\ snd (mrun m [MAdd (S"x") {| me_state := None; me_deadline := None; me_end := None |}; MGet (S"n1")])
+                              = [RErr e_maint; REntry {| me_state := Some MMaint; me_deadline := Some (S"2024-01-02T03:04:05+00:00"); me_end := None |}]) /\
+  (let t := {| tt_type := S"mac"; tt_val := TVStr (S"00:11:22:33:44:55") |} in
+   ttuple_wf (S"label") t = true /\ tval_plain (tt_val t) = true /\ tt_string t = S"mac:00:11:22:33:44:55").
+Proof. vm_compute. repeat split. Qed.
